@@ -15,6 +15,8 @@ executed symbolically on every yielded unit).  The content object is an abstract
 instance with a list field of SYMBOLIC length; the loop invariant speaks about the
 yielded prefix (see contracts/c03_exec.py).
 """
+import ast
+
 import z3
 
 from pyvc.contracts import FnContract, LoopSpec, Raises
@@ -205,20 +207,58 @@ def paged_contract(p: Paged):
     if p.num != "pos":
         ens.append(("numbers-strictly-increasing-from-1-under-class-invariant" if p.num[2] == "increasing"
                     else "unit-number-is-1-based-position-under-class-invariant", e_position))
-    loop_ord = RTF_MAIN_LOOP if cls == "RtfContent" else 0
-    return FnContract(
+    spec_ = LoopSpec(inv=inv, label="units")
+    c_ = FnContract(
         target=f"{DT}::{cls}.iterate_units",
         params=[("self", p_ext(cls))] + [(k, p_bool()) for k in p.kwargs],
         generator=True,
         ensures=ens,
         raises=[],
-        loops={loop_ord: LoopSpec(inv=inv, label="units")},
+        loops={},
         result_maker=result_maker,
         note=f"one unit per {p.what} of self.{p.field} (symbolic length), in order, number/text as in SPEC",
     )
+    # the loop under the invariant is found by what it iterates (self.<field>, possibly through enumerate / a local alias),
+    # not by its position in the source
+    c_.loop_finder = lambda ex, fnode, node: spec_ if isinstance(node, ast.For) and iterates(fnode, node.iter, ("self", p.field)) else None
+    return c_
 
 
-RTF_MAIN_LOOP = 2   # loops of RtfContent.iterate_units in source order: images, tables, pages
+def _single_def(fnode, name):
+    """value expression of the only assignment to local `name` in fnode (None if not single / not simple)"""
+    defs = []
+    for n in ast.walk(fnode):
+        if isinstance(n, ast.Assign) and len(n.targets) == 1 and isinstance(n.targets[0], ast.Name) and n.targets[0].id == name:
+            defs.append(n.value)
+        elif isinstance(n, ast.AnnAssign) and isinstance(n.target, ast.Name) and n.target.id == name and n.value is not None:
+            defs.append(n.value)
+        elif isinstance(n, (ast.AugAssign,)) and isinstance(n.target, ast.Name) and n.target.id == name:
+            return None
+    return defs[0] if len(defs) == 1 else None
+
+
+def iterates(fnode, expr, what, depth=0):
+    """Does the iterable expression draw its elements from `what`?  what = ("self", field) | ("name", param) |
+    ("text", substring of the unparsed call).  Looks through enumerate / zip / list / iter / reversed-free wrappers and local
+    aliases with a single definition."""
+    if depth > 4:
+        return False
+    if what[0] == "self" and isinstance(expr, ast.Attribute) and isinstance(expr.value, ast.Name) and expr.value.id == "self" and expr.attr == what[1]:
+        return True
+    if what[0] == "name" and isinstance(expr, ast.Name) and expr.id == what[1]:
+        return True
+    if what[0] == "text" and isinstance(expr, ast.Call) and what[1] in ast.unparse(expr) and not any(
+            isinstance(a, (ast.Call, ast.Name)) and iterates(fnode, a, what, depth + 1) for a in expr.args):
+        return True
+    if isinstance(expr, ast.Call) and isinstance(expr.func, ast.Name) and expr.func.id in ("enumerate", "zip", "list", "tuple", "iter") and expr.args:
+        return iterates(fnode, expr.args[0], what, depth + 1)
+    if isinstance(expr, ast.Call) and isinstance(expr.func, ast.Name) and expr.func.id == "range" and len(expr.args) == 1 \
+            and isinstance(expr.args[0], ast.Call) and isinstance(expr.args[0].func, ast.Name) and expr.args[0].func.id == "len" and expr.args[0].args:
+        return iterates(fnode, expr.args[0].args[0], what, depth + 1)      # for i in range(len(xs)): the i-th iteration handles xs[i]
+    if isinstance(expr, ast.Name):
+        d = _single_def(fnode, expr.id)
+        return d is not None and iterates(fnode, d, what, depth + 1)
+    return False
 
 
 def rtf_contract():
@@ -466,18 +506,33 @@ def build_slides_contract():
         st.heap[content.ref] = HeapObj("obj", d, old.cls, old.fresh)
         return NONE
 
-    return FnContract(
+    outer_spec, inner_spec = LoopSpec(inv=outer_inv, label="slides"), LoopSpec(inv=inner_inv, label="blocks")
+
+    def finder(ex, fnode, node):
+        if not isinstance(node, ast.For):
+            return None
+        if iterates(fnode, node.iter, ("name", "slides_texts")):
+            return outer_spec
+        outer = [n for n in ast.walk(fnode) if isinstance(n, ast.For) and iterates(fnode, n.iter, ("name", "slides_texts"))]
+        if len(outer) == 1 and any(x is node for x in ast.walk(outer[0])) and isinstance(outer[0].target, ast.Tuple) \
+                and isinstance(outer[0].target.elts[-1], ast.Name) and iterates(fnode, node.iter, ("name", outer[0].target.elts[-1].id)):
+            return inner_spec
+        return None
+
+    c_ = FnContract(
         target=f"{PPT}::_build_slides_from_text_blocks",
         params=[("content", p_ppt_content()), ("slides_texts", p_block_seqs())],
         ensures=[("appends-one-slide-per-entry", ens("count")), ("earlier-slides-kept", ens("kept")),
                  ("new-slides-numbered-1..n-in-order", ens("numbers")), ("all_text-grows-by-the-number-of-blocks", ens("all_text")),
                  ("other-fields-untouched", ens("frame"))],
         raises=[],
-        loops={0: LoopSpec(inv=outer_inv, label="slides"), 1: LoopSpec(inv=inner_inv, label="blocks")},
+        loops={},
         modifies=("content",),
         result_maker=post_state,
         note="slide k of slides_texts becomes a PptSlideContent numbered k (1-based), appended in order",
     )
+    c_.loop_finder = finder
+    return c_
 
 
 def cum_nonneg_hyp(c):
@@ -584,15 +639,41 @@ def flush_page_contract():
         o = c.st.obj(c.args["current_page"].ref)
         return o.data.length == 0 if o.kind == "alist" else z3.BoolVal(o.kind == "list" and not o.data)
 
-    return FnContract(
-        target=f"{RTF}::_RtfParser._strip_rtf_full_with_pages.<locals>.flush_page",
-        params=[("self", p_obj("_RtfParser", {"pages": p_alist("str")})), ("current_page", p_alist("str"))],
+    # the closure is found by its role (the nested function of the page splitter that appends to self.pages); its free list
+    # variable is the one it joins / clears
+    from pyvc import loader as _loader
+    name, buf = "flush_page", "current_page"
+    try:
+        outer = _loader.module(RTF).functions.get("_RtfParser._strip_rtf_full_with_pages")
+        cl = [n for n in (outer.body if outer is not None else []) if isinstance(n, ast.FunctionDef) and any(
+            isinstance(x, ast.Call) and isinstance(x.func, ast.Attribute) and x.func.attr == "append" and ast.unparse(x.func.value) == "self.pages"
+            for x in ast.walk(n))]
+        if len(cl) == 1:
+            name = cl[0].name
+            local = {t.id for x in ast.walk(cl[0]) if isinstance(x, (ast.Assign, ast.AnnAssign)) for t in (x.targets if isinstance(x, ast.Assign) else [x.target])
+                     if isinstance(t, ast.Name)}
+            free = [x.func.value.id for x in ast.walk(cl[0]) if isinstance(x, ast.Call) and isinstance(x.func, ast.Attribute) and x.func.attr == "clear"
+                    and isinstance(x.func.value, ast.Name) and x.func.value.id not in local]
+            if len(set(free)) == 1:
+                buf = free[0]
+    except (OSError, SyntaxError):
+        pass
+
+    def buffer_reset(c):     # noqa: F811  (bound to the discovered buffer name)
+        o = c.st.obj(c.args[buf].ref)
+        return o.data.length == 0 if o.kind == "alist" else z3.BoolVal(o.kind == "list" and not o.data)
+
+    c_ = FnContract(
+        target=f"{RTF}::_RtfParser._strip_rtf_full_with_pages.<locals>.{name}",
+        params=[("self", p_obj("_RtfParser", {"pages": p_alist("str")})), (buf, p_alist("str"))],
         ensures=[("every-page-break-opens-exactly-one-page-entry", one_entry), ("earlier-pages-kept-in-place", kept),
                  ("page-buffer-reset", buffer_reset)],
         raises=[],
-        modifies=("self", "current_page"),
+        modifies=("self", buf),
         note="closure verified with its free variables as parameters",
     )
+    c_.oid_name = "_RtfParser._strip_rtf_full_with_pages.<locals>.flush_page"     # ids do not depend on the closure's current name
+    return c_
 
 
 RESUB = z3.Function("re_sub", S, S, S, S)     # pattern.sub(repl, s): PY-RE total, uninterpreted
@@ -703,8 +784,19 @@ def parse_spine_contract():
                 out.append(cnt_idref_def(e, t, z3.IntVal(0)))
         return z3.And(out)
 
+    sp1, sp2 = LoopSpec(inv=inv_for(T_REF), label="itemrefs"), LoopSpec(inv=inv_for(T_REF_ANY), label="itemrefs-any-namespace")
+
+    def finder(ex, fnode, node):
+        if not isinstance(node, ast.For):
+            return None
+        if iterates(fnode, node.iter, ("text", "opf:itemref")):
+            return sp1
+        if iterates(fnode, node.iter, ("text", "{*}itemref")):
+            return sp2
+        return None
+
     from pyvc.verify import p_opt
-    return FnContract(
+    c_ = FnContract(
         target=f"{EPUB}::_EpubContext._parse_spine",
         hyps=hyps,
         params=[("self", p_obj("_EpubContext", {"_opf_root": p_opt(p_ext("Elem")), "_spine": p_alist("str")}))],
@@ -712,10 +804,12 @@ def parse_spine_contract():
         ensures=[("one-entry-per-itemref-with-idref", ens("count")), ("entries-in-document-order", ens("order")),
                  ("entry-k-is-the-idref-of-the-k-th-kept-itemref", ens("items"))],
         raises=[],
-        loops={0: LoopSpec(inv=inv_for(T_REF), label="itemrefs"), 1: LoopSpec(inv=inv_for(T_REF_ANY), label="itemrefs-any-namespace")},
+        loops={},
         modifies=("self",),
         note="reading order == idrefs of <spine>/<itemref> in document order; assumed: xml.etree findall returns direct children in document order",
     )
+    c_.loop_finder = finder
+    return c_
 
 
 # ------------------------------------------------------------ opaque members --
@@ -738,7 +832,72 @@ def install_opaque():
     OP[("XlsSheet", "get_table")] = xls_table
 
 
+OVER = z3.Bool("pyvc!overapprox")     # same marker as contracts/c04_exec.py: assumed on every over-approximated path
+
+
+def _untrusted(pc, goal):
+    return any(z3.eq(x, OVER) for x in pc)
+
+
 class C03Executor(ET.ETreeMixin, X.UnitsExecutor):
+    """+ loops under an invariant are found by what they iterate (contract attribute `loop_finder`);
+    + paths that went through an over-approximation (EXC-ANY call, loop cut without invariant) carry the marker OVER: a
+      solver model on such a path is not a counter-example (the VC becomes `unknown`, the native replayer decides)."""
+
+    def loop_spec(self, node):
+        c = self.contract
+        lf = getattr(c, "loop_finder", None) if c is not None else None
+        if lf is not None and self.inline_depth == 0:
+            fnode = self.cur_fn_stack[-1] if self.cur_fn_stack else None
+            sp = lf(self, fnode, node) if fnode is not None else None
+            if sp is not None:
+                self._lf_hits = getattr(self, "_lf_hits", 0) + 1
+            return sp
+        return super().loop_spec(node)
+
+    def exc_any(self, st, site, also=()):
+        st.assume(OVER)
+        return super().exc_any(st, site, also)
+
+    def havoc_call(self, st, what, args, node):
+        r = super().havoc_call(st, what, args, node)
+        st.assume(OVER)
+        return r
+
+    def symbolic_for(self, s, st, it):
+        spec = self.loop_spec(s)
+        if spec is None or spec.inv is None:
+            st.assume(OVER)
+        return super().symbolic_for(s, st, it)
+
+    def s_While(self, s, st):
+        spec = self.loop_spec(s)
+        if spec is None or (spec.inv is None and spec.unroll is None):
+            st.assume(OVER)
+        return super().s_While(s, st)
+
+    def e_YieldFrom(self, n, st):
+        v = n.value
+        if isinstance(v, (ast.GeneratorExp, ast.ListComp)) and len(v.generators) == 1 and self._probe_iter(v, st) is not None:
+            g = v.generators[0]
+            body = ast.Expr(ast.Yield(v.elt))
+            for cond in reversed(g.ifs):
+                body = ast.If(cond, [body], [])
+            loop = ast.For(g.target, g.iter, [body], [])
+            ast.copy_location(loop, n)
+            ast.fix_missing_locations(loop)
+            outs = self.s_For(loop, st)
+            res = []
+            for o in outs:
+                if o.kind == "fall":
+                    res.append((o.st, NONE))
+                elif o.kind == "raise":
+                    self.raise_in(o.st, o.val)
+                else:
+                    raise X.Unsupported(f"{self.loc(n)} {o.kind} out of a comprehension")
+            return res
+        return super().e_YieldFrom(n, st)
+
     def compare(self, st, op, a, b, node):
         # `cell is None` on an abstract cell value
         if op in ("Is", "IsNot") and isinstance(a, VExt) and a.sort == "Cell" and b is NONE:
@@ -761,10 +920,27 @@ def EXECUTOR(module, reg, uni, **kw):
 _MAIL_EXEC = []
 
 
+def _has_ite(t):
+    seen, stack = set(), [t]
+    while stack:
+        x = stack.pop()
+        if x.get_id() in seen:
+            continue
+        seen.add(x.get_id())
+        if z3.is_app(x):
+            if x.decl().kind() == z3.Z3_OP_ITE:
+                return True
+            stack.extend(x.children())
+    return False
+
+
 def _mail_executor():
     if not _MAIL_EXEC:
         from contracts import c16_exec
-        from pyvc.values import VBytes, VTuple
+        from pyvc.values import VBytes, VTuple, VInt
+        from pyvc.state import Frame
+        from pyvc.ops import Unsupported
+        fld_, I_ = fld, I
 
         class C03MailExecutor(c16_exec.MailExecutor):
             """bytes literals given to startswith/endswith on a (latin-1 modelled) byte string"""
@@ -779,6 +955,92 @@ def _mail_executor():
                         return a
                     args = [conv(args[0])] + list(args[1:])
                 return super().str_method(st, s, name, args, kwargs, node)
+
+            def _sym_comp(self, n, st, elt_nodes):
+                view = self._probe_iter(n, st)
+                if view is None:
+                    return None
+                g = n.generators[0]
+                (st, _it) = self.ev(g.iter, st)[0]
+                length, elem = view
+                snap = st.fork()
+
+                def at(k):
+                    """-> (keep Bool term, element value, [assumption terms of that evaluation])  at index term k."""
+                    s = snap.fork()
+                    npc = len(s.pc)
+                    s.frames.append(Frame({}, len(s.frames) - 1, s.frame.fnode))
+                    self.sinks.append([])
+                    try:
+                        cur = self.assign(g.target, elem(k), s)
+                        if len(cur) != 1:
+                            raise Unsupported(f"{self.loc(n)} forking comprehension target")
+                        s1 = cur[0]
+                        keep = []
+                        for cond in g.ifs:
+                            r = self.ev(cond, s1)
+                            if len(r) != 1:
+                                raise Unsupported(f"{self.loc(n)} forking comprehension condition")
+                            s1, cv = r[0]
+                            keep.append(self.truth(s1, cv).t)
+                        if len(elt_nodes) != 1:
+                            raise Unsupported(f"{self.loc(n)} multi-valued comprehension")
+                        r = self.ev(elt_nodes[0], s1)
+                        if len(r) != 1:
+                            raise Unsupported(f"{self.loc(n)} forking comprehension element")
+                        s1, v = r[0]
+                    finally:
+                        sink = self.sinks.pop()
+                    if sink:
+                        raise Unsupported(f"{self.loc(n)} comprehension element may raise")
+                    return z3.And(keep + [z3.BoolVal(True)]), v, s1, list(s1.pc[npc:])
+
+                J = z3.Int(fresh_name("j!comp"))
+                keepJ, vJ, sJ, extraJ = at(J)
+                # extraJ: assumptions made by library models while the element was evaluated (instances of assumed contracts such as
+                # the ordering facts of re.finditer matches).  Forks and possible exceptions were excluded above, so these are facts about
+                # the element at index J, not branch conditions; they are kept as a quantified fact triggered by the element term.
+                if extraJ and hasattr(vJ, "t") and z3.is_app(vJ.t) and vJ.t.num_args() > 0:
+                    body_ = z3.Implies(z3.And(J >= 0, J < length), z3.And(extraJ))
+                    if _has_ite(vJ.t):
+                        st.assume(z3.ForAll([J], body_))
+                    else:
+                        st.assume(z3.ForAll([J], body_, patterns=[vJ.t]))
+                # element as a function of the index
+                if isinstance(vJ, VRef):
+                    o = sJ.obj(vJ.ref)
+                    sch = self.schema(o.cls) if o.kind == "obj" and o.cls else None
+                    if sch is None:
+                        raise Unsupported(f"{self.loc(n)} comprehension element is a heap object without schema")
+                    ef = z3.Function(fresh_name(f"comp_{o.cls}"), I, ext_sort(o.cls))
+                    facts = []
+                    for f, kind in sch.items():
+                        cur = o.data.get(f)
+                        if kind in ("str", "int", "bool") and isinstance(cur, (VStr, VInt, VBool)):
+                            facts.append(ops.eq_term(X._val(kind, fld(o.cls, f, X._sort_of_kind(kind))(ef(J))), cur))
+                    if facts:
+                        st.assume(z3.ForAll([J], z3.And(facts), patterns=[ef(J)]))
+                    ekind = ("obj", o.cls)
+                    cls = o.cls
+
+                    def el(k, ef=ef, cls=cls):
+                        return VExt(cls, ef(k))
+                elif isinstance(vJ, (VStr, VInt, VBool, VExt)):
+                    ekind = X.ekind_of_value(vJ)
+
+                    def el(k):
+                        return at(k)[1]
+                else:
+                    raise Unsupported(f"{self.loc(n)} comprehension element {vJ!r}")
+                if not g.ifs:
+                    return st, VSeq(length, el, ekind, tag=("map", length, el))
+                # filtered: an order-preserving sub-sequence, described by (source length, keep, element)
+                ln = z3.Int(fresh_name("filter.len"))
+                st.assume(z3.And(ln >= 0, ln <= length))
+                es = X._sort_of_kind(ekind)
+                arr = z3.Const(fresh_name("filter.at"), z3.ArraySort(I, es))
+                keep_fn = lambda k: at(k)[0]
+                return st, VSeq(ln, lambda k: X._val(ekind, z3.Select(arr, k)), ekind, tag=("filtermap", length, keep_fn, el))
 
         _MAIL_EXEC.append(C03MailExecutor)
     return _MAIL_EXEC[0]
@@ -807,7 +1069,71 @@ def contracts(reg):
     out.append(parse_spine_contract())
     from contracts import C16
     out.append(C16.split_contract())      # one message per non-empty slice between separator lines, in order
+    from pyvc import solve as _solve
+    if _untrusted not in _solve.SAT_UNTRUSTED:
+        _solve.SAT_UNTRUSTED.append(_untrusted)
+    for c in out:
+        _make_safe(c)
     return out
+
+
+def _safe(fn):
+    """A clause that cannot read the state it is given (a list the code now builds differently, a local that no longer exists)
+    is not a verdict about the code: OUT-OF-SUBSET (-> native replay decides), never an engine error."""
+    if fn is None or getattr(fn, "_c03_safe", False):
+        return fn
+
+    def g(*a, **k):
+        try:
+            return fn(*a, **k)
+        except (AttributeError, KeyError, TypeError, IndexError, z3.Z3Exception) as e:
+            from pyvc.ops import Unsupported
+            raise Unsupported(f"contract clause cannot interpret the state reached by the code: {type(e).__name__}: {e}")
+    g._c03_safe = True
+    return g
+
+
+def _has_contract_loop(ex, c, fnode):
+    for n in ast.walk(fnode):
+        if isinstance(n, (ast.For, ast.While)) and c.loop_finder(ex, fnode, n) is not None:
+            return True
+        if isinstance(n, ast.YieldFrom) and isinstance(n.value, (ast.GeneratorExp, ast.ListComp)) and len(n.value.generators) == 1:
+            g = n.value.generators[0]
+            loop = ast.For(g.target, g.iter, [ast.Pass()], [])
+            if c.loop_finder(ex, fnode, loop) is not None:
+                return True
+    return False
+
+
+def _make_safe(c):
+    if c.assumed:
+        return
+    c.requires, c.hyps = _safe(c.requires), _safe(c.hyps)
+    c.ensures = [(l, _safe(f)) for (l, f) in c.ensures]
+    if getattr(c, "loop_finder", None) is not None:
+        h0 = c.hyps
+
+        def hyps(cx, h0=h0, c=c):
+            # the invariant is stated for the loop that walks the source list; code that no longer has such a loop (moved into a
+            # helper, became a while loop, ...) is outside what this contract can follow: the FUNCTION is OUT-OF-SUBSET and the
+            # native replayer decides
+            fnode = cx.ex.module.functions.get(c.target.split("::")[1]) if cx.ex.contract is c else None
+            if fnode is not None and not _has_contract_loop(cx.ex, c, fnode):
+                from pyvc.ops import Unsupported
+                raise Unsupported("the loop over the source sequence, for which the invariant is stated, was not found in this function")
+            return h0(cx) if h0 is not None else z3.BoolVal(True)
+        hyps._c03_safe = True
+        c.hyps = hyps
+    for spec in list(c.loops.values()):
+        spec.inv = _safe(spec.inv)
+    lf = getattr(c, "loop_finder", None)
+    if lf is not None:
+        def lf2(ex, fnode, node, lf=lf):
+            sp = lf(ex, fnode, node)
+            if sp is not None:
+                sp.inv = _safe(sp.inv)
+            return sp
+        c.loop_finder = lf2
 
 
 from contracts import c03_flow  # noqa: E402
